@@ -278,7 +278,22 @@ def gen_and_check(ctx, rng):
             ctx.count("kind:file" + anch)
             if any(d["ptxt"] for d in recs):
                 ctx.count("file_with_record_parameters" + anch)
-            ads = make_adapters_from_specifications([(typ, spec)], sp)
+            trailing = None
+            if rng.random() < 0.5:
+                # a further specification after the file: it must get the global parameters, not the file's
+                trailing = gen_single(rng, typ)
+                tnorm = R.normalize_adapter(trailing["seq"])
+                e_t = trailing["params"].get("e", glob["e"])
+                if e_t >= 1 and e_t / (len(tnorm) - tnorm.count("N")) >= 1:
+                    trailing = None
+            if trailing is not None:
+                tspec = "later=" + trailing["text"] + (";" + ";".join(trailing["ptxt"]) if trailing["ptxt"] else "")
+                ads_all = make_adapters_from_specifications([(typ, spec), (typ, tspec)], sp)
+                ads, last = ads_all[:-1], ads_all[-1]
+                ctx.count("file_followed_by_another_specification")
+                check_single(last, expect_single(trailing, glob, "later"), f"{tspec} given after {spec.replace(path, 'FILE')}", problems)
+            else:
+                ads = make_adapters_from_specifications([(typ, spec)], sp)
             if len(ads) != len(recs):
                 problems.append(("count", f"{spec}: {len(ads)} adapters for {len(recs)} records"))
             for k, (ad, d) in enumerate(zip(ads, recs)):
